@@ -60,11 +60,78 @@ def configure_process():
         logging.getLogger().setLevel(logging.DEBUG)
 
 
+def import_probe():
+    """Every module of the package under test imports in this process
+    configuration (-O / -OO, warnings filter, logging, hash seed ...).
+    Returns None, or what failed -- if the failure is raised from inside the
+    package.  (A failure raised elsewhere is the environment's: it
+    propagates, the shard dies and the run is INCONCLUSIVE.)"""
+    import importlib.util
+    import traceback
+    spec = importlib.util.find_spec('pgradd')
+    root = os.path.realpath(os.path.dirname(spec.origin))
+    names = ['pgradd']
+    for dp, dns, fns in os.walk(root):
+        dns[:] = sorted(d for d in dns if d not in ('tests', 'test', 'data',
+                                                    '__pycache__'))
+        for fn in sorted(fns):
+            if fn.endswith('.py') and not fn.startswith('test'):
+                rel = os.path.relpath(os.path.join(dp, fn), root)[:-3]
+                parts = rel.split(os.sep)
+                if parts[-1] == '__init__':
+                    parts = parts[:-1]
+                if parts:
+                    names.append('pgradd.' + '.'.join(parts))
+    for n in names:
+        try:
+            importlib.import_module(n)
+        except BaseException as exc:  # noqa: BLE001
+            tb = traceback.extract_tb(exc.__traceback__)
+            inner = os.path.realpath(tb[-1].filename) if tb else ''
+            if not inner.startswith(root + os.sep):
+                raise
+            return {'module': n, 'exc': type(exc).__name__,
+                    'msg': str(exc)[:300],
+                    'where': '%s:%s' % (os.path.relpath(inner, root),
+                                        tb[-1].lineno),
+                    'modules_tried': len(names)}
+    return None
+
+
+def configuration_text():
+    bits = []
+    if sys.flags.optimize:
+        bits.append('python -%s' % ('O' * sys.flags.optimize))
+    if os.environ.get('VMON_WARNINGS') == 'error':
+        bits.append('warnings as errors')
+    if os.environ.get('VMON_LOGGING') == 'debug':
+        bits.append('logging at DEBUG')
+    return ', '.join(bits) or 'default configuration'
+
+
 def main():
     setup_paths()
     configure_process()
     prop = sys.argv[1].upper()
     from vmon.core.ctx import Ctx
+    broken = import_probe()
+    if broken is not None:
+        sig = 'a module of the package cannot be imported (%s; %s)' % (
+            broken['exc'], configuration_text())
+        if sys.argv[2] == 'replay':
+            print('REPLAY sig=%s detail=%s' % (sig, json.dumps(broken)))
+            print('VIOLATION property=%s replay=%s' % (prop, sys.argv[3]))
+            sys.exit(1)
+        ctx = Ctx(prop, sys.argv[2], int(sys.argv[3]), int(sys.argv[4]),
+                  int(sys.argv[5]))
+        ctx.violation(sig, {'what': 'import', 'module': broken['module']},
+                      broken)
+        res = ctx.dump()
+        res['anchors'] = {}
+        res['monitor_evaluations'] = {}
+        with open(sys.argv[6], 'w') as f:
+            json.dump(res, f, default=repr)
+        return
     mod = importlib.import_module('vmon.props.%s' % prop.lower())
     quiet_rdkit()
     pfile = check_target()
@@ -73,6 +140,14 @@ def main():
         with open(sys.argv[3]) as f:
             rec = json.load(f)
         ctx = Ctx(prop, rec.get('tier', 'quick'), rec.get('seed', 0), 0, 1)
+        if rec.get('toured') and not getattr(mod, 'NO_TOUR', False):
+            # the witness comes from a process that had a past
+            from vmon.core.foreign import tour
+            tour()
+        if rec['case'].get('what') == 'import':
+            print('replay: every module of the package imports in this '
+                  'configuration (%s)' % configuration_text())
+            sys.exit(0)
         mod.replay(ctx, rec['case'])
         known = {}
         try:
@@ -124,6 +199,12 @@ def main():
     cap = CountingSink()
     sys.stdout = cap
     try:
+        if shard % 2 == 1 and not getattr(mod, 'NO_TOUR', False):
+            # the process has a past: a tour through every other part of
+            # the package before the workload (vmon.core.foreign)
+            from vmon.core.foreign import tour
+            ctx.count('shards_started_after_a_tour_of_the_package')
+            ctx.count('tour_steps_that_raised', tour())
         mod.run_shard(ctx)
     finally:
         sys.stdout = real_stdout
